@@ -151,6 +151,12 @@ def generate(r, tier, index):
             docs.append(copy.deepcopy(docs[j]))
             same_as[str(n)] = j
             n += 1
+    if r.random() < 0.12:
+        docs.insert(r.randrange(0, n + 1), {'k': 'empty'})       # an empty document somewhere in the sequence
+        pos = docs.index({'k': 'empty'})
+        ptoks = {k: dict(v, doc=v['doc'] + (1 if v['doc'] >= pos else 0)) for k, v in ptoks.items()}
+        same_as = {str(int(a) + (1 if int(a) >= pos else 0)): (b + (1 if b >= pos else 0)) for a, b in same_as.items()}
+        n += 1
     plans = [_gen_plan(r, n) for _ in range(3)]
     if r.random() < 0.5:
         plans.append(_gen_plan(r, n, kind=r.choice(['include_list', 'include_docs', 'multidoc', 'nested'])))
@@ -566,7 +572,8 @@ def execute(sc):
                 if obs['exc']['is_ay'] != ref['exc']['is_ay']:
                     pass   # error class may differ by route (MergeError vs PremergeError); only success/failure is compared
         # key: !include [...]  ==  {key: merged content}
-        if not res['violations'] and sc.get('under_key') and ref['status'] == 'ok' and sc['plans']:
+        has_empty = any(d['k'] == 'empty' for d in sc['docs'])
+        if not res['violations'] and sc.get('under_key') and ref['status'] == 'ok' and sc['plans'] and not has_empty:
             shape = sc['under_key'] if isinstance(sc['under_key'], str) else 'key'
             mat = materialise(sc, sc['plans'][0], wrap_key=shape)
             obs = _run(mat)
@@ -594,7 +601,7 @@ def execute(sc):
                     _check_lookup(mat, obs, res, 'under_key')
                     _check_paths(sc, mat, obs, res, 'under_key')
         # key: !include f merged over earlier content of the same key == the file's (stand-alone) content placed there
-        if not res['violations'] and len(sc['docs']) >= 2 and sc.get('under_key'):
+        if not res['violations'] and len(sc['docs']) >= 2 and sc.get('under_key') and not has_empty:
             d1, d2 = sc['docs'][0], sc['docs'][1]
             txt2 = emit.emit(d2)
             if not any(t in txt2 for t in ('!clear', '!prev', '!notnew')) and not d1.get('tag') and not d2.get('tag'):
